@@ -257,15 +257,19 @@ func (cs *ContractSet) parseFile(pkgPath, file string, f *ast.File) {
 			case "functional":
 				cur.Functional = true
 			case "traverse":
-				if strings.HasPrefix(rest, "stepmark ") {
-					// traverse stepmark K param HandleType expr
+				if strings.HasPrefix(rest, "stepmark ") || strings.HasPrefix(rest, "stepremap ") {
+					// traverse stepmark|stepremap K param HandleType expr
 					ps := strings.SplitN(rest, " ", 5)
-					k, err := strconv.Atoi(ps[1])
-					if len(ps) < 5 || err != nil {
-						errf("bad traverse stepmark clause: %s", ln)
+					if len(ps) < 5 {
+						errf("bad traverse %s clause: %s", ps[0], ln)
 						continue
 					}
-					cur.Traverses = append(cur.Traverses, Traverse{Mode: "stepmark", Loop: k, Param: ps[2], Handle: ps[3], Expr: ps[4]})
+					k, err := strconv.Atoi(ps[1])
+					if err != nil {
+						errf("bad traverse %s clause: %s", ps[0], ln)
+						continue
+					}
+					cur.Traverses = append(cur.Traverses, Traverse{Mode: ps[0], Loop: k, Param: ps[2], Handle: ps[3], Expr: ps[4]})
 					continue
 				}
 				parts := strings.SplitN(rest, " ", 4)
